@@ -120,7 +120,7 @@ func runC12(c C12Case, ev *vt.Ev) *vt.Failure {
 			er := bt.EvalFilter(op.Pred, op.Key, cells, nil)
 			unspec = er.Unspec
 			matched = len(er.Cells) > 0
-			mustReject = er.Status == bt.EvInvalid
+			mustReject = er.Status == bt.EvInvalid || bt.RootInvalid(op.Pred) // the root is evaluated even for a row without cells
 			mayReject = er.Status == bt.EvInvalidLazy || er.ZeroCount || bt.StaticInvalid(op.Pred)
 			// second observer: the emulator's own filtered read of the row
 			rd := s.Exec(&bt.Op{K: "ReadRows", Table: tbl, Rows: &bt.RowSet{Keys: []bt.BS{op.Key}}, Filter: op.Pred})
